@@ -385,6 +385,7 @@ pub fn replay(doc: &Value) -> i32 {
 
 pub fn main(env: &Env) -> i32 {
     let mut rep = Report::new("C11", "fault_enumeration", env);
+    rep.expected_probes = vec!["crash_points", "header_edits", "edit_plus_crash", "accepted", "probe.cut_inside_padding", "probe.cut_in.classes", "probe.cut_in.pad1", "probe.cut_in.members", "probe.cut_in.pad2", "probe.cut_in.by_params", "probe.cut_in.pad3", "probe.cut_in.strings", "rejected.InvalidHeader", "rejected.InvalidClasses", "rejected.InvalidMembers", "rejected.UnexpectedStringBytes", "rejected.WrongEndianness", "rejected.WrongFormat", "rejected.WrongVersion"];
     rep.stubs = vec!["SimDisk: durable file image between writer process and reader process; crash keeps an arbitrary prefix, header fields overwritten".into()];
     rep.assumptions = vec![
         "the writer emits the file front to back, so what a crash leaves is a prefix".into(),
